@@ -26,6 +26,7 @@ type gen struct {
 	nv       int
 	keyOps   []string // the `key` ops of the current case (prefix of every replay)
 	lastLine string   // the last `v` op
+	docOp    string   // when set: the short op that rebuilds the base document of the `v` ops
 }
 
 func (g *gen) newCase(label string, kinds map[*knownBlob]int) {
@@ -503,6 +504,9 @@ func (g *gen) vop(base []byte, m string, orig *origInfo) vinfo {
 		r.Hit("mech:signature-object-exactly-one-key")
 	}
 	replay := func() []string {
+		if g.docOp != "" {
+			return append(append([]string(nil), g.keyOps...), g.docOp, line)
+		}
 		return append(append([]string(nil), g.keyOps...), "doc "+hk.Hex(base), line)
 	}
 	if vi.accepted {
@@ -871,6 +875,9 @@ func Run(r *hk.Run) {
 	g.compactTails()
 	g.tailEnumeration()
 	g.handlerRoundTrip()
+
+	// (1b'') document sizes
+	g.sizes()
 
 	// (1c) keys and signatures of every algorithm the library knows; every way it can refuse a signature
 	g.algorithmMatrix()
